@@ -714,7 +714,9 @@ class Rule(ScenarioContainer):
     def add_background(self, background, inherited=None):
         if inherited is None:
             feature = self.feature or self.parent
-            inherited = feature.background
+            if feature:
+                # -- HINT: Rule without feature if parse_rule() is used.
+                inherited = feature.background
 
         self.background = background
         self.background.inherited_background = inherited
